@@ -1,13 +1,17 @@
 """C05 — every reported repair sequence repairs; parsing continues as if it were applied.
 
-Proof (theories/Repair): the semantics of a repair sequence is the mirror of
-apply_repairs/lr_upto (`apply_seq`), `valid_repair` is the property's first
-sentence as a boolean; proved for ALL tables and inputs: a valid sequence makes
-the driver progress by >= N real lexemes or to acceptance (valid_repair_progress),
-stripping the trailing shifts of a search success keeps it valid
-(success_stripped_valid), Delete/Insert commute on the parser state
-(del_ins_commute), and the driver mirror relates to the plain interpreter of
-LR/Automaton.v (clean_accept, first_error_is_plain_reject).
+Proof (theories/Repair, all tables / inputs / oracles, hypotheses explicit): the
+semantics of a repair sequence is the mirror of apply_repairs/lr_upto
+(`apply_seq`); `valid_repair` is the property's first sentence as a boolean.
+valid_repair_plain_parse: a valid sequence means plain LR parsing of the
+REPAIRED token string, from the configuration at the error, gets through every
+inserted/shifted lexeme and N more or to Accept.  continue_as_if_applied: after
+a strictly applied sequence the driver behaves exactly as the driver run on
+the repaired token string (same value shape, same later errors up to the
+position offset, same outcome).  valid_repair_progress: the driver then
+progresses by >= N real lexemes or accepts.  success_stripped_valid: stripping
+the trailing Shifts of a search success keeps it valid.  del_ins_commute,
+clean_accept, first_error_is_plain_reject (link to LR/Automaton.run).
 Tie / decision: the implementation reports ALL sequences of every error; the
 extracted `valid_repair` is evaluated on EVERY one of them at the configuration
 the mirror driver reaches by replaying the implementation's own first sequences
@@ -111,6 +115,8 @@ def _check_input(ctx, ctx0, r, inp):
         ctx.violation(d, tag="seq")
         ok = False
     ctx0.count("sequences_checked", int(m.get("nseq", "0")))
+    if int(m.get("nskip", "0")):
+        ctx0.count("sequences_beyond_model_cap_not_evaluated", int(m.get("nskip", "0")))
     # ---- (2) continuation: later errors and value = replay of the first sequences --------
     impl_errs = ["%d:%d:%d" % (e[0], e[1], 1 if e[3] else 0) for e in inp.errors]
     merrs = [x for x in m.get("merrs", "").split(",") if x]
@@ -142,6 +148,11 @@ def _check_input(ctx, ctx0, r, inp):
             d = dict(base)
             d.update({"what": "the returned tree's leaves do not spell the repaired input", "leaves": leaves, "expected": exp})
             ctx.violation(d, tag="leaves")
+            ok = False
+        if inp.odd_lexemes:
+            d = dict(base)
+            d.update({"what": "%d leaves of the returned tree are faulty but not zero-length, or zero-length but not faulty" % inp.odd_lexemes})
+            ctx.violation(d, tag="treevalid")
             ok = False
         if not cfg.tree_valid(r.dgram, t):
             d = dict(base)
@@ -178,7 +189,7 @@ def run(ctx):
     ctx.gate = core.proof_gate("C05")
     for _ in ctx.gate["theorems"]:
         ctx.oblige(True)
-    cases = repairgen.gen_cases(ctx, ctx.n(320, 5000), ctx.n(7, 8))
+    cases = repairgen.gen_cases(ctx, ctx.n(240, 2500), ctx.n(7, 8))
     results = repair.run_cases(cases)
     for r in results:
         if not r.ok:
@@ -186,6 +197,11 @@ def run(ctx):
             continue
         ctx.count("family_" + r.fam)
         ctx.count("costs_" + r.cname)
+        if r.PN != 3 and not ctx.hist.get('parse_at_least_not_3'):
+            ctx.count('parse_at_least_not_3')
+            ctx.violation({"what": "PARSE_AT_LEAST is %d; the property demands that a repair lets parsing continue over the next three "
+                                   "lexemes" % r.PN, "grammar": r.src}, no_input=True)
+            ctx.oblige(False)
         ctx.count("table_conflict_free" if r.conflicts is None and r.verdict.get("single") else "table_with_resolved_conflicts")
         if r.avoid:
             ctx.count("with_avoid_insert")
